@@ -1214,32 +1214,40 @@ def run_forms(ctx, case):
             if not np.array_equal(d, Y.T):
                 ctx.fail("oracle", "the class wrote into the caller's data array", case, key="C17:forms:readonly:written")
         elif item == "optforms":
-            fi, ff = INT_FORMS[var["int"]], FLOAT_FORMS[var["float"]]
-            order = [fi(ordmax)] if req else None
-            tab, sel, _ = fn_pipeline(Y, Yr, fi(br), fi(nb), fi(ordmax), ff(dt), step=fi(1), req=req, order=order, rtol=ff(5e-2))
-            judge("br / nb / ordmax / step as %s, dt / rtol as %s" % (var["int"], var["float"]), tab, base_tab, 1e-12, "build_hank/SSI_fast/SSI_poles")
-            if req:
-                _, sel0, _ = fn_pipeline(Y, Yr, br, nb, ordmax, dt, req=req, order=[ordmax])
-                if np.shape(sel) != np.shape(sel0) or not tables_agree(sel, sel0, 1e-12):
-                    ctx.fail("oracle", "SSI_mpe: orders given as %s in a list / rtol as %s give other variances than plain int / float"
-                             % (var["int"], var["float"]), case, key="C17:forms:optforms:value")
-            # the functions' calc_unc: 1 and np.True_ are treated alike by the unchanged tree (whatever that treatment is)
-            outs = [ssi.build_hank(Y, Yr, br, "cov_mm", calc_unc=b, nb=nb)[1] for b in (1, np.True_)]
-            if (outs[0] is None) != (outs[1] is None) or (outs[0] is not None and not np.array_equal(outs[0], outs[1])):
-                ctx.fail("oracle", "build_hank treats calc_unc=1 and calc_unc=np.True_ differently", case, key="C17:forms:optforms:bool")
-            exp = base_class(Y)
-            ss = SingleSetup(Y.T.copy(), fs=ff(fs))
-            rf = [fi(x) for x in refs] if var["int"] != "0d" else np.array(refs)
-            alg = SSIcov(name="u", method="cov_mm", br=fi(br), ordmax=fi(ordmax), ref_ind=rf, calc_unc=BOOL_FORMS[var["bool"]], nb=fi(nb),
-                         hc=dict(LOOSE_HC))
-            ss.add_algorithms(alg)
-            ss.run_by_name("u")
-            if alg.result.Fn_poles_cov is None:
-                ctx.fail("oracle", "SSIcov(calc_unc=%s) stores no variances although the class accepts that form as true" % var["bool"], case,
-                         key="C17:forms:optforms:bool")
-            else:
-                judge("br / ordmax / nb / ref_ind as %s, fs as %s, calc_unc=%s" % (var["int"], var["float"], var["bool"]),
-                      alg.result.Fn_poles_cov, exp, 1e-12, "SSIcov through SingleSetup")
+            try:
+                fi, ff = INT_FORMS[var["int"]], FLOAT_FORMS[var["float"]]
+                order = [fi(ordmax)] if req else None
+                tab, sel, _ = fn_pipeline(Y, Yr, fi(br), fi(nb), fi(ordmax), ff(dt), step=fi(1), req=req, order=order, rtol=ff(5e-2))
+                judge("br / nb / ordmax / step as %s, dt / rtol as %s" % (var["int"], var["float"]), tab, base_tab, 1e-12, "build_hank/SSI_fast/SSI_poles")
+                if req:
+                    _, sel0, _ = fn_pipeline(Y, Yr, br, nb, ordmax, dt, req=req, order=[ordmax])
+                    if np.shape(sel) != np.shape(sel0) or not tables_agree(sel, sel0, 1e-12):
+                        ctx.fail("oracle", "SSI_mpe: orders given as %s in a list / rtol as %s give other variances than plain int / float"
+                                 % (var["int"], var["float"]), case, key="C17:forms:optforms:value")
+                # the functions' calc_unc: 1 and np.True_ are treated alike by the unchanged tree (whatever that treatment is)
+                outs = [ssi.build_hank(Y, Yr, br, "cov_mm", calc_unc=b, nb=nb)[1] for b in (1, np.True_)]
+                if (outs[0] is None) != (outs[1] is None) or (outs[0] is not None and not np.array_equal(outs[0], outs[1])):
+                    ctx.fail("oracle", "build_hank treats calc_unc=1 and calc_unc=np.True_ differently", case, key="C17:forms:optforms:bool")
+                exp = base_class(Y)
+                ss = SingleSetup(Y.T.copy(), fs=ff(fs))
+                rf = [fi(x) for x in refs] if var["int"] != "0d" else np.array(refs)
+                alg = SSIcov(name="u", method="cov_mm", br=fi(br), ordmax=fi(ordmax), ref_ind=rf, calc_unc=BOOL_FORMS[var["bool"]], nb=fi(nb),
+                             hc=dict(LOOSE_HC))
+                ss.add_algorithms(alg)
+                ss.run_by_name("u")
+                if alg.result.Fn_poles_cov is None:
+                    ctx.fail("oracle", "SSIcov(calc_unc=%s) stores no variances although the class accepts that form as true" % var["bool"], case,
+                             key="C17:forms:optforms:bool")
+                else:
+                    judge("br / ordmax / nb / ref_ind as %s, fs as %s, calc_unc=%s" % (var["int"], var["float"], var["bool"]),
+                          alg.result.Fn_poles_cov, exp, 1e-12, "SSIcov through SingleSetup")
+            except (TypeError, ValueError) as e_form:
+                if (var["int"], var["float"], var["bool"]) == ("int", "float", "True"):
+                    raise   # plain Python values: a refusal is a failure (reported by the enclosing handler)
+                # a NumPy scalar / 0-d array spelling of a number refused by input validation while the plain value is accepted: the
+                # property does not say which exotic spellings must be accepted, only that an accepted one means the same
+                ctx.hist("option forms refused by input validation", type(e_form).__name__)
+                ctx.not_judged += 1
         else:
             dtp = np.dtype(var["dtype"])
             rt = 1e-2 if dtp == np.float32 else 1e-9
